@@ -651,6 +651,18 @@ func trimClass(info *types.Info, call *ast.CallExpr) string {
 					return "unicode"
 				}
 			}
+			// func(r rune) bool { return unicode.IsSpace(r) [|| …] }: at least the Unicode class
+			if fl, ok := ast.Unparen(call.Args[1]).(*ast.FuncLit); ok && len(fl.Body.List) == 1 {
+				if ret, ok := fl.Body.List[0].(*ast.ReturnStmt); ok && len(ret.Results) == 1 {
+					for _, f := range impliedFactsOr(ret.Results[0]) {
+						if c, ok := ast.Unparen(f).(*ast.CallExpr); ok {
+							if fn := calleeOf(info, c); fn != nil && fn.Pkg() != nil && fn.Pkg().Path() == "unicode" && fn.Name() == "IsSpace" {
+								return "unicode"
+							}
+						}
+					}
+				}
+			}
 		}
 	case "TrimLeft", "Trim", "TrimRight":
 		if len(call.Args) == 2 {
@@ -769,6 +781,21 @@ func checkStripSlices(c *Ctx) {
 				return true
 			}
 			la := lenArg(info, hb.X)
+			if la == nil {
+				// n := len(x) … x[a:n-b]
+				if nid, ok := ast.Unparen(hb.X).(*ast.Ident); ok {
+					ast.Inspect(fi.Decl.Body, func(k ast.Node) bool {
+						if as, ok := k.(*ast.AssignStmt); ok && len(as.Lhs) == 1 && len(as.Rhs) == 1 {
+							if l, ok := as.Lhs[0].(*ast.Ident); ok && info.ObjectOf(l) == info.ObjectOf(nid) {
+								if a := lenArg(info, as.Rhs[0]); a != nil {
+									la = a
+								}
+							}
+						}
+						return true
+					})
+				}
+			}
 			lid, isID := la.(*ast.Ident)
 			if la == nil || !isID || info.ObjectOf(lid) != xobj {
 				return true
@@ -813,7 +840,27 @@ func checkStripSlices(c *Ctx) {
 						if !f.val {
 							continue
 						}
-						if l := lenArg(info, e.X); l != nil && isX(l) {
+						lenOfX := func(y ast.Expr) bool {
+							if l := lenArg(info, y); l != nil && isX(l) {
+								return true
+							}
+							if nid, ok := ast.Unparen(y).(*ast.Ident); ok {
+								hit := false
+								ast.Inspect(fi.Decl.Body, func(k ast.Node) bool {
+									if as, ok := k.(*ast.AssignStmt); ok && len(as.Lhs) == 1 && len(as.Rhs) == 1 {
+										if l, ok := as.Lhs[0].(*ast.Ident); ok && info.ObjectOf(l) == info.ObjectOf(nid) {
+											if a := lenArg(info, as.Rhs[0]); a != nil && isX(a) {
+												hit = true
+											}
+										}
+									}
+									return true
+								})
+								return hit
+							}
+							return false
+						}
+						if lenOfX(e.X) {
 							if k, ok := intConst(e.Y); ok {
 								switch e.Op {
 								case token.GEQ:
@@ -841,4 +888,13 @@ func checkStripSlices(c *Ctx) {
 	if n == 0 {
 		c.Unresolved("R08f", "strip-both-ends slices in sql/migrate (expected the quoted-delimiter unquoting in Scanner.delimCmd)")
 	}
+}
+
+// impliedFactsOr flattens a disjunction a || b || c into its operands.
+func impliedFactsOr(e ast.Expr) []ast.Expr {
+	e = ast.Unparen(e)
+	if be, ok := e.(*ast.BinaryExpr); ok && be.Op == token.LOR {
+		return append(impliedFactsOr(be.X), impliedFactsOr(be.Y)...)
+	}
+	return []ast.Expr{e}
 }
